@@ -15,6 +15,7 @@ import (
 	"strconv"
 	"strings"
 
+	"github.com/invopop/gobl/verifharness/internal/pubdata"
 	"github.com/invopop/gobl/verifharness/internal/pubschema"
 	"github.com/invopop/gobl/verifharness/internal/vh"
 )
@@ -656,4 +657,96 @@ func sortedKeys(m map[string]any) []string {
 	}
 	sort.Strings(out)
 	return out
+}
+
+// enumEmptyExt: every published extension key, put with an EMPTY value into
+// every extension map of every example (calculated envelope) and at the root of
+// the document and its parties when they have none. An empty value is either
+// cleaned away or refused; written out as it is, it breaks the schema of
+// extension values (a code is never empty).
+func enumEmptyExt(yield func(MutCase) bool) {
+	loadBases()
+	d0 := pubdata.MustPublished()
+	cfg := vh.Cfg()
+	idx := 0
+	for _, b := range bases {
+		var keys []string
+		for _, a := range b.Addons {
+			if ad := d0.Addons[a]; ad != nil {
+				for _, e := range ad.Extensions {
+					keys = append(keys, e.Key)
+				}
+			}
+		}
+		if r := d0.Regimes[b.Regime]; r != nil {
+			for _, e := range r.Extensions {
+				keys = append(keys, e.Key)
+			}
+		}
+		// keys without list or pattern are the ones an empty value can slip through
+		for _, k := range d0.ExtKeys {
+			for _, def := range d0.Ext[k] {
+				if len(def.Codes) == 0 && def.Pattern == "" {
+					keys = append(keys, k)
+				}
+			}
+		}
+		sort.Strings(keys)
+		tree, err := decodeTree(b.JSON)
+		if err != nil {
+			continue
+		}
+		var ptrs []string
+		var walk func(v any, ptr string)
+		walk = func(v any, ptr string) {
+			switch t := v.(type) {
+			case map[string]any:
+				for _, k := range sortedKeys(t) {
+					cp := ptr + "/" + escPtr(k)
+					if _, isMap := t[k].(map[string]any); isMap && k == "ext" {
+						ptrs = append(ptrs, cp)
+						continue
+					}
+					walk(t[k], cp)
+				}
+			case []any:
+				for i, e := range t {
+					if i < 2 {
+						walk(e, ptr+"/"+strconv.Itoa(i))
+					}
+				}
+			}
+		}
+		walk(tree, "")
+		root, _ := tree.(map[string]any)
+		doc, _ := root["doc"].(map[string]any)
+		for _, p := range []string{"", "/supplier", "/customer", "/tax"} {
+			holder := any(doc)
+			if p != "" {
+				holder = doc[p[1:]]
+			}
+			if hm, ok := holder.(map[string]any); ok {
+				if _, has := hm["ext"]; !has {
+					ptrs = append(ptrs, "/doc"+p+"/ext")
+				}
+			}
+		}
+		seen := map[string]bool{}
+		for _, p := range ptrs {
+			for _, k := range keys {
+				if seen[p+"\x00"+k] {
+					continue
+				}
+				seen[p+"\x00"+k] = true
+				idx++
+				if idx%cfg.Shards != cfg.Shard {
+					continue
+				}
+				op := Op{Op: "set", Ptr: p + "/" + escPtr(k), Value: jstr(""), Kind: "empty-ext-value"}
+				if !yield(MutCase{Path: b.Path, Ops: []Op{op}}) {
+					return
+				}
+			}
+		}
+	}
 }
